@@ -475,7 +475,8 @@ class MainWorld(SessionWorld):
                             self.futs.append(("call", self.fw.watch(f2), "reentrant"))
                         return fail
                     txaio.add_callbacks(f, None, eb)
-                self.futs.append((what, self.fw.watch(f), phase))
+                # (some applications do not consume a failure in their callback but let it pass on: Twisted chains it)
+                self.futs.append((what, self.fw.watch(f, passthrough=ch.flag("application-lets-failures-pass-on", 0.3)), phase))
                 if phase == "joined":
                     self.run.probe("outstanding-request:" + what)
         except Exception as e:  # noqa
@@ -585,6 +586,11 @@ class MainWorld(SessionWorld):
             run.violate("C06.callback-order", "no-leave-for-ended-joined-session:%s" % getattr(self, "end_cause", "?"), repr(cbs))
         if self.router_aborted and not left and not self.violated:
             run.violate("C06.callback-order", "no-leave-after-router-ABORT", repr(cbs))
+        # ... and so does the 'leave' event for the listeners, once the application's own onLeave() has returned normally
+        if self.joined and self.ended and gone and left and not self.violated and beh.get("onLeave") == "return" \
+                and not beh.get("reenter:onLeave") and self.cfg["variant"] != "new-api-session" and "join" in self.obs \
+                and "leave" not in self.obs:
+            run.violate("C06.callback-order", "no-leave-event-for-ended-joined-session:%s" % getattr(self, "end_cause", "?"), repr(self.obs))
         if left and not self.joined and not self.router_aborted and not self.client_aborted:
             run.violate("C06.callback-order", "leave-without-join-or-abort", repr(cbs))
         if gone:
